@@ -22,3 +22,4 @@ import seg_common as _sc2
 PAIRS += [_sc2.pairs()[k] for k in ('segment_page_free',)]      # last page freed => segment freed; only abandoned pages left => segment abandoned
 PAIRS += [_sc2.pairs()['page_clear']]      # a freed page is wiped (no stale list pointers), its span returned once, the segment counts one page less
 PAIRS += [_pc.collect_retired_pair()]      # a retired (empty, kept) page is found again and freed when its count-down ends or the collect is forced
+PAIRS += [_sc2.pairs()['segment_free']]      # a segment with no page in use is handed to mi_segment_os_free exactly once (unless dont_free)
